@@ -100,14 +100,17 @@ def g16Float (raw : Nat) : Bytes :=
     s ++ fmtPos num den
 
 /-- `%.16Lg` of an x87 80-bit extended pattern (low 80 bits of the 16-byte object);
-    only normal numbers, zero, inf and nan encodings produced by the FPU are modelled -/
+    every 80-bit pattern is modelled, incl. the invalid encodings a hostile log can contain -/
 def g16LongDouble (raw : Nat) : Bytes :=
   let r : Nat := raw % 2 ^ 80
   let sign : Nat := r / 2 ^ 79 % 2
   let e : Nat := r / 2 ^ 64 % 32768
   let m : Nat := r % 2 ^ 64
   let s : Bytes := if sign = 1 then [45] else []
-  if e = 32767 then (if m % 2 ^ 63 = 0 then s ++ strBytes "inf" else s ++ strBytes "nan")
+  -- encodings with a non-zero exponent and the explicit integer bit clear (unnormals, pseudo-infinity, pseudo-NaN) are
+  -- invalid operands of the x87: glibc classifies them as NaN (checked against the real snprintf by the harness)
+  if e = 32767 then (if m = 2 ^ 63 then s ++ strBytes "inf" else s ++ strBytes "nan")
+  else if e ≠ 0 ∧ m < 2 ^ 63 then s ++ strBytes "nan"
   else if m = 0 then s ++ [48]
   else
     let ex : Int := (if e = 0 then (1 : Int) else (e : Int)) - 16383 - 63
